@@ -246,7 +246,11 @@ func scFaults(seq string, gap time.Duration) func(x *vs.Exec) {
 			time.Sleep(gap)
 		}
 		vs.SetInterest(false)
-		awaitHealthy(w, 60*time.Second, "after faults "+seq)
+		// "once the server is reachable again": logins the model server is still going to refuse or cut (left over from
+		// the last faults) are part of the outage, and each of them may cost the client one back-off step (at most
+		// 20 s + 10 % jitter): they extend the bound instead of counting against the client
+		bound := 60*time.Second + time.Duration(w.Srv.RejectLogins+w.Srv.CutAfterLogin)*23*time.Second
+		awaitHealthy(w, bound, "after faults "+seq)
 		pacing(w, "faults "+seq)
 		vs.Observe("logins=%d", len(w.Srv.EventsOf("login")))
 		w.Svc.Close()
